@@ -21,12 +21,19 @@ QUERY_TIMEOUT_MS = dict(quick=20000, thorough=120000)
 BOUNDS = dict(quick=dict(periodicity="7 R-vectors (triclinic lattice, Wannier centres off the origin), nb=2, k symbolic (unit-circle atoms) on the k-list path with G in {(1,0,0),(0,-1,2),(2,1,-1)}; "
                          "FFT path NKFFT=(2,1,2) with rational dK and the same G; matrices Ham, AA, SS, rotAA, der<=2", gauge="nb=3: spectrum (e0,e0,e1) with an exactly degenerate pair, "
                          "all H-gauge matrices symbolic, W in U(2) = diag(p1,p2)*Rot*diag(1,p3) with four symbolic angles; traces over the pair and over the single band",
-                         random_gauge="real Data_K_R constructor on a 3-R-vector system at a concrete k, eigh stubbed (degenerate pair), unitary_group.rvs stubbed by W"),
+                         random_gauge="real Data_K_R constructor on a 3-R-vector system at a concrete k, eigh stubbed (degenerate pair), unitary_group.rvs stubbed by W; "
+                         "(i) symbolic threshold, exactly degenerate pair; (ii) DEFAULT degen_thresh_random_gauge and default calculator degen_thresh with spectrum (e0, e0+g, e1), "
+                         "g >= 0 symbolic (paths g=0, 0<g<1e-7, 1e-7<=g<=1e-4, g>1e-4), e1 more than 1 eV above"),
               thorough=dict(periodicity="as quick, nb=2, more G", gauge="as quick plus nb=4 (e0,e0,e1,e2) for the light classes", random_gauge="as quick"))
 EXPLANATION = ("(a) The real Data_K_R/Rvectors/FFT_R_to_k are run for k and k+G with symbolic X(R); the Wannier-gauge matrices agree to 1e-12 (the only difference is the double value of exp(2 pi i n)). "
                "(b) Two Data_K_R shells carry the same symbolic H-gauge data, the second rotated by the real _rotate with UU = W (+) 1, W an arbitrary U(2) built from unit-circle atoms; "
-               "every formula trace over a band group is the same rational function. (c) The random_gauge option is driven through the real constructor with scipy's unitary_group.rvs stubbed by W.")
-ASSUMPTIONS = ["exact degeneracy inside the rotated pair (for a gap between 0 and the threshold the invariance is only approximate)", "band energies sorted ascending",
+               "every formula trace over a band group is the same rational function. (c) The random_gauge option is driven through the real constructor with scipy's unitary_group.rvs stubbed by W (draws counted, UU_K read twice); "
+               "with the default thresholds of Data_K and of the tabulators and a symbolic splitting of the pair, every multiplet that random_gauge rotates must lie inside one band group of the "
+               "calculators, and the tabulated results with and without the rotation agree (all six quantities when the rotated multiplet is exactly degenerate or nothing is rotated; the "
+               "exactly trace-invariant ones - energy, band gradients, spin - when the splitting is finite but below both thresholds).")
+ASSUMPTIONS = ["exact degeneracy inside the rotated pair for the Berry-curvature-type quantities (for a splitting between 0 and the threshold D_H uses the unrotated energies, so their invariance is "
+               "only approximate, O(splitting); energy, band gradients and spin are traces over the group and are required to agree exactly there too)",
+               "default-threshold case: third band more than 1 eV above the pair", "band energies sorted ascending",
                "|X(R)| <= 1 for the tolerance-shaped periodicity obligations (linear in X, so no loss of generality)",
                "every element of U(2) is diag(p1,p2)*Rot(theta)*diag(1,p3); per-formula cases check the three generators diag(p,1), diag(1,p), Rot(theta) separately "
                "(invariance for all data under each generator implies invariance under the generated group, because the rotated data are again arbitrary data of the same class); "
@@ -362,6 +369,54 @@ def case_random_gauge(rec, nb):
     rec.explore(body, ass + [thr.zreal() > 0])
 
 
+TRACE_INVARIANT = ("energy", "band_gradients", "spin")     # traces of a matrix over the group: exactly invariant also for a finite splitting inside the group
+
+
+def case_random_gauge_defaults(rec, nb):
+    """the DEFAULT thresholds of both sides: Data_K(random_gauge=True) without degen_thresh_random_gauge, tabulators with their default degen_thresh; the splitting g of the
+    lower pair is symbolic, so the solver explores g = 0, 0 < g <= both thresholds, and g between / above the thresholds"""
+    import scipy.stats
+    e0, g, e1 = SymC.var("e0"), SymC.var("gap"), SymC.var("e1")
+    E = sarr([[e0, e0 + g, e1]])
+    ass = [g.zreal() >= 0, (e1 - e0 - g).zreal() > 1]
+    W = unitary2()
+    shadow(MODS, proxy=NpProxy(linalg=EighStub(np.linalg, E, [])))
+    calls = []
+
+    def rvs(dim, *a, **k):
+        calls.append(dim)
+        if dim != 2 or len(calls) > 1:
+            raise Inconclusive(f"unexpected draws {calls}")
+        return W.copy()
+    scipy.stats.unitary_group.rvs = rvs
+    names = ["Ham", "AA", "SS"]
+    tabs = tabulators()
+
+    def body(rec):
+        res, grp = [], []
+        syst = sym_system(nb, IR3, names)
+        rec.witness = lambda env: dict(test="random_gauge_defaults", nb=nb, E=env.val(E[0]).tolist(), W=env.arr(W), XR={k: env.arr(v) for k, v in syst._XX_R.items()})
+        for rg in (False, True):
+            del calls[:]
+            dk = Data_K_R(sym_system(nb, IR3, names), k_list=K0.copy(), grid=GridStub(), random_gauge=rg)        # default degen_thresh_random_gauge
+            dk.__dict__['cell_volume'] = 8.0
+            dk.UU_K
+            if rg:
+                rotated = [tuple(int(x) for x in gr) for gr in dk.degen[0]]
+                thr_calc = {tab.degen_thresh for tab in tabs.values()}
+                rec.concrete("all tabulators share one default degen_thresh", len(thr_calc) == 1, detail=str(thr_calc), key="tabulators have different default degen_thresh")
+                calc_groups = [tuple(int(x) for x in k) for k in dk.get_bands_in_range_groups_ik(0, -np.inf, np.inf, degen_thresh=thr_calc.pop())]
+                inside = all(any(a <= r[0] and r[1] <= b for a, b in calc_groups) for r in rotated)
+                rec.concrete("every multiplet rotated by random_gauge lies inside one band group of the calculators (default thresholds on both sides)", inside,
+                             detail=f"rotated {rotated}, calculator groups {calc_groups}", key="random_gauge (default thresholds) mixes bands that the calculators treat as separate groups")
+                exact = all(bool(E[0, r[1] - 1] - E[0, r[0]] == 0) for r in rotated)
+            res.append({q: tab(dk).data for q, tab in tabs.items()})
+        for q in res[0]:
+            if exact or q in TRACE_INVARIANT:
+                rec.eq(f"tabulated {q}: random_gauge=True == random_gauge=False (default thresholds)", res[1][q], res[0][q], key=f"random_gauge (default thresholds) changes the tabulated {q}")
+    rec.explore(body, ass)
+
+
 # ---- (a) periodicity -------------------------------------------------------------------------------------------------------------------------------------------
 IR7 = np.array([[0, 0, 0], [1, 0, 0], [-1, 0, 0], [0, 1, 0], [0, -1, 0], [1, 0, -1], [-1, 0, 1]])
 GS = [(1, 0, 0), (0, -1, 2), (2, 1, -1)]
@@ -445,6 +500,7 @@ def cases(tier, seed):
     q = tier == "quick"
     out = []
     out.append(Case("random_gauge option nb=3", case_random_gauge, dict(nb=3), timeout=600))
+    out.append(Case("random_gauge default thresholds nb=3", case_random_gauge_defaults, dict(nb=3), timeout=600))
     for G in (GS[:1] if q else GS):
         out.append(Case(f"periodic k-list G={G}", case_periodic_klist, dict(nb=2, G=G), timeout=600))
         for lib in ("numpy", "slow"):
@@ -547,6 +603,46 @@ def _replay(rec):
                 worst, what = d, q
             scale = max(scale, np.abs(a).max())
         return bool(worst > 1e-9 * scale), f"tabulated {what}: change {worst:.3e} (scale {scale:.3e})"
+    if w["test"] == "random_gauge_defaults":
+        import scipy.stats
+        E = np.array(w["E"], dtype=float)[None]
+        W = unarr(w["W"]).astype(complex)
+        if np.abs(W.conj().T @ W - np.eye(2)).max() > 1e-6:
+            th, a, b, c = 0.7, 0.3, -1.1, 2.0
+            W = np.diag([np.exp(1j * a), np.exp(1j * b)]) @ np.array([[np.cos(th), -np.sin(th)], [np.sin(th), np.cos(th)]]) @ np.diag([1, np.exp(1j * c)])
+        XR = w["XR"]
+        if max(np.abs(unarr(v)).max() for v in XR.values()) == 0:
+            rng = np.random.default_rng(7)
+            XR = {}
+            for k, v in w["XR"].items():
+                A = rng.normal(size=np.shape(v["re"])) + 1j * rng.normal(size=np.shape(v["re"]))
+                A[2] = np.conjugate(np.swapaxes(A[1], 0, 1))
+                A[0] = A[0] + np.conjugate(np.swapaxes(A[0], 0, 1))
+                XR[k] = dict(re=A.real.tolist(), im=A.imag.tolist())
+        real_eigh, real_rvs = np.linalg.eigh, scipy.stats.unitary_group.rvs
+        np.linalg.eigh = lambda a, *x, **k: (E.copy(), U0(nb)[None].copy())
+        scipy.stats.unitary_group.rvs = lambda dim, *a, **k: W.copy() if dim == 2 else real_rvs(dim)
+        try:
+            res = []
+            tabs = tabulators()
+            for rg in (False, True):
+                dk = Data_K_R(sym_system(nb, IR3, list(XR), concrete=XR), k_list=K0.copy(), grid=GridStub(), random_gauge=rg)
+                dk.__dict__['cell_volume'] = 8.0
+                dk.UU_K
+                if rg:
+                    rotated = [tuple(int(x) for x in gr) for gr in dk.degen[0]]
+                    thr = list(tabs.values())[0].degen_thresh
+                    calc_groups = [tuple(int(x) for x in k) for k in dk.get_bands_in_range_groups_ik(0, -np.inf, np.inf, degen_thresh=thr)]
+                    inside = all(any(a <= r[0] and r[1] <= b for a, b in calc_groups) for r in rotated)
+                    exact = all(E[0, r[1] - 1] - E[0, r[0]] == 0 for r in rotated)
+                res.append({q: tab(dk).data for q, tab in tabs.items()})
+        finally:
+            np.linalg.eigh, scipy.stats.unitary_group.rvs = real_eigh, real_rvs
+        qs = [q for q in res[0] if exact or q in TRACE_INVARIANT]
+        worst = max(np.abs(res[0][q] - res[1][q]).max() for q in qs)
+        scale = max(np.abs(res[0][q]).max() for q in qs)
+        return bool((not inside) or worst > 1e-9 * (1 + scale)), (f"E={E[0].tolist()} (splitting {E[0, 1] - E[0, 0]:.3e}): random_gauge rotates {rotated}, calculators (degen_thresh={thr}) group {calc_groups}; "
+                                                                    f"max change of {qs} = {worst:.3e}")
     if w["test"] == "random_gauge":
         import scipy.stats
         E = np.array(w["E"], dtype=float)[None]
